@@ -19,7 +19,7 @@ def table_flow(run, module, cfg, key, test, trace_module, prefixes, constants=No
     return cases, judge(run, cases, test, trace_module, prefixes, shards=shards, env=env, sig_fn=sig_fn)
 
 
-def judge(run, cases, test, trace_module, prefixes, shards=4, env=None, sig_fn=None, pkg="p2ph"):
+def judge(run, cases, test, trace_module, prefixes, shards=4, env=None, sig_fn=None, pkg="p2ph", drift_prefixes=()):
     pid = run.pid
     wd = vlib.workdir(pid)
     binp = os.path.join(wd, pkg + ".test")
@@ -74,6 +74,11 @@ def judge(run, cases, test, trace_module, prefixes, shards=4, env=None, sig_fn=N
         for f in fails:
             c = by_id.get(f["tr"], {})
             for p in f["preds"]:
+                if drift_prefixes and p.startswith(tuple(drift_prefixes)):
+                    # a clause of the surrounding specification that is not part of the listed property: reported, no verdict
+                    run.drift("clause %s fails for case %s" % (p, json.dumps(c)[:600]))
+                    cnt["(drift) " + p] += 1
+                    continue
                 if not p.startswith(tuple(prefixes)):
                     continue
                 cnt[p] += 1
@@ -233,6 +238,32 @@ def c05(run):
           sig_fn=lambda c, f: {"degenerate": "to" in c, "first": (c.get("peers") or [{}])[0].get("script", [None])[:1]})
 
 
+def tracker_flow(run):
+    """PeerTracker.tla: design check under asynchronous event delivery, then one behaviour per edge of the atomic
+    graph replayed on a real Exchange (connect / disconnect / score / block / ageing), followed by a real
+    GetRangeByHeight that must be served whenever a capable peer is still connected (C18 after churn)."""
+    quick = run.tier == "quick"
+    rnd = random.Random(vlib.seed())
+    res = vlib.tlc(run.pid, "pt_mc", "PeerTracker", "PeerTracker.cfg", workers=8, timeout=1800,
+                   constants=None if quick else {"MaxEvents": 7})
+    vlib.require_tlc_ok(res, "PeerTracker.tla design check")
+    run.add_tlc("PeerTracker.tla 3 peers, full/limited connections, asynchronous bus, tracker size 2, gc", res)
+    res = vlib.tlc(run.pid, "pt_ex", "PeerTracker", "PeerTrackerExport.cfg", workers=1, export_key="PT", timeout=1800)
+    vlib.require_tlc_ok(res, "PeerTracker.tla export")
+    run.add_tlc("PeerTracker.tla transition cover (atomic delivery, 3 peers, 5 network events, 3 ticks)", res)
+    cases = res.exported
+    total = len(cases)
+    cap_ = 400 if quick else total
+    if total > cap_:
+        cases = rnd.sample(cases, cap_)
+    base = 500000
+    for i, c in enumerate(cases):
+        c["id"] = base + i
+    run.cov["tracker_edges_exported"], run.cov["tracker_edges_replayed"] = total, len(cases)
+    judge(run, cases, "TestTracker", "PeerTrackerTrace", ["C18_", "C05_"], shards=8, drift_prefixes=["PT_"],
+          sig_fn=lambda c, f: {"after": "churn", "last_op": (c.get("hist") or [{}])[-1].get("op", {}).get("op")})
+
+
 @register("C18")
 def c18(run):
     quick = run.tier == "quick"
@@ -270,3 +301,4 @@ def c18(run):
     run.assumptions += ["honest peers are scripted handlers reproducing the server's answers for a store holding 1..avail; the real server is used for the wire round-trips"]
     judge(run, cases, "TestRange", "ExchangeTrace", ["C18_", "C05_"], shards=8)
     judge(run, [{"id": 0}], "TestWire", "ExchangeTrace", ["C18_"], shards=1)
+    tracker_flow(run)
